@@ -114,7 +114,9 @@ class XorEncodedFile(io.RawIOBase):
         # Try the most common eof_shellcode and nonce offset candidates first
         xf = None
         found_nonce_offset = None
-        for offset, count in collections.Counter(eof_shellcode_offsets + nonce_offsets).most_common():
+        # On a tie, prefer candidates confirmed by the size field over marker-only candidates: the marker bytes
+        # (ff ff ff) also occur inside stubs (e.g. backward calls), a matching size field is hardly accidental.
+        for offset, count in collections.Counter(nonce_offsets + eof_shellcode_offsets).most_common():
             logger.debug(f"Found common nonce offset: {offset} ({count})")
             found_nonce_offset = offset
             xf = cls(fh, nonce_offset=found_nonce_offset)
